@@ -116,3 +116,13 @@ Proof.
   apply andb_true_iff in H. destruct H as [H H3]. apply andb_true_iff in H. destruct H as [H1 H2].
   rewrite !bytes_okb_spec in *. tauto.
 Qed.
+
+(* ---- Cardano ---- *)
+Lemma shelley_staking_path_val : shelley_staking_path = [2%Z; 0%Z].
+Proof. reflexivity. Qed.
+Lemma ada_keyhash_len_28 : ada_keyhash_len = 28%nat.
+Proof. reflexivity. Qed.
+Lemma chacha_lens : chacha_tag_len = 16%nat /\ chacha_key_len = 32%nat.
+Proof. split; reflexivity. Qed.
+Lemma b32_index_max_val : b32_index_max = (2 ^ 32 - 1)%Z.
+Proof. reflexivity. Qed.
